@@ -474,7 +474,10 @@ func (s *State) applyContract(site ssa.Instruction, key string, con *Contract, c
 		} else {
 			for _, l := range locs {
 				s.frameCheckLoc(site, l)
-				s.havocLoc(l)
+			}
+			pre := s.clone()
+			for _, l := range locs {
+				s.havocLocPre(l, pre)
 			}
 		}
 	}
@@ -483,6 +486,22 @@ func (s *State) applyContract(site ssa.Instruction, key string, con *Contract, c
 	s.assume(app("<=", s.alloc, na))
 	s.alloc = na
 	res := s.freshResults(sig, "r_"+sanitize(short))
+	if con.Deterministic {
+		// the results are a function of the arguments (the receiver is an immutable object)
+		var as []string
+		for _, a := range args {
+			as = append(as, flatten(a)...)
+		}
+		for i, r := range res {
+			cs := comps(r.T)
+			for j, t := range flatten(r) {
+				if j < len(cs) {
+					s.assume(eq(t, app(eng.detFn(key, i, j, args, cs[j].Sort), as...)))
+				}
+			}
+		}
+		c.assumed["results of "+key+" are a function of its receiver and arguments (receivers are immutable objects)"] = true
+	}
 	bindResultVars(vars, res, callee, sig)
 	for _, en := range con.Ensures {
 		x := &EvalCtx{s: s, old: old, vars: vars, pkg: pkg}
@@ -526,6 +545,8 @@ func bindResultVars(vars map[string]Val, res []Val, callee *ssa.Function, sig *t
 // ---------- frames ----------
 
 type frameLoc struct {
+	outer  *Val   // nested: the outer slice whose elements' field slices are meant
+	fpath  int    // nested: field index inside the outer element struct
 	kind   string // "fld", "elems", "map", "cell", "glob"
 	prefix string // heap key prefix
 	ref    string // object / backing array / map ref
@@ -544,6 +565,15 @@ func (s *State) evalAssigns(con *Contract, vars map[string]Val, pkg *ssa.Package
 		x := &EvalCtx{s: s, vars: vars, pkg: pkg}
 		switch n := e.(type) {
 		case *ECall:
+			if n.Fn == "allelems" && len(n.Args) == 1 {
+				if ts, ok := n.Args[0].(*EStr); ok {
+					t, _ := x.specTypeAny(ts.V)
+					if t != nil {
+						locs = append(locs, frameLoc{kind: "elemtype", prefix: "elem|" + typeKey(t), desc: e.String(), T: t})
+						continue
+					}
+				}
+			}
 			if n.Fn == "alloftype" && len(n.Args) == 1 {
 				if ts, ok := n.Args[0].(*EStr); ok {
 					t, _ := x.specTypeAny(ts.V)
@@ -555,6 +585,26 @@ func (s *State) evalAssigns(con *Contract, vars map[string]Val, pkg *ssa.Package
 			}
 			s.c.specErr(con.Where, "assigns %s: not understood", e)
 		case *EStar:
+			if sel, ok := n.X.(*ESelect); ok {
+				if in, ok := sel.X.(*EStar); ok {
+					ov := x.eval(in.X)
+					if kindOf(ov.T) == kSlice {
+						if st, ok := ov.T.Underlying().(*types.Slice).Elem().Underlying().(*types.Struct); ok {
+							for i := 0; i < st.NumFields(); i++ {
+								if st.Field(i).Name() == sel.F {
+									if fs, ok := st.Field(i).Type().Underlying().(*types.Slice); ok {
+										o := ov
+										locs = append(locs, frameLoc{kind: "nested", prefix: "elem|" + typeKey(fs.Elem()), desc: e.String(), T: fs.Elem(), outer: &o, fpath: i})
+									}
+								}
+							}
+							continue
+						}
+					}
+					s.c.specErr(con.Where, "assigns %s: not understood", e)
+					continue
+				}
+			}
 			v := x.eval(n.X)
 			switch kindOf(v.T) {
 			case kSlice:
@@ -617,10 +667,37 @@ func (s *State) evalAssigns(con *Contract, vars map[string]Val, pkg *ssa.Package
 	return locs, false
 }
 
-func (s *State) havocLoc(l frameLoc) {
+// nestedBase: base of outer[j].field, read in state st.
+func (l frameLoc) nestedBase(st *State, j string) string {
+	et := l.outer.T.Underlying().(*types.Slice).Elem()
+	ft := et.Underlying().(*types.Struct).Field(l.fpath).Type()
+	v := st.pureLoad(&Addr{Space: "elem", Ref: l.outer.Sl.Base, Idx: ixT(l.outer.Sl.Off, j), Elem: et, Path: []int{l.fpath}, T: ft})
+	return v.Sl.Base
+}
+
+func (l frameLoc) nestedMember(st *State, ref string) string {
+	j := fmt.Sprintf("j!n%d", st.c.fresh)
+	st.c.fresh++
+	return fmt.Sprintf("(exists ((%s Int)) (and (<= 0 %s) (< %s %s) (= %s %s)))", j, j, j, l.outer.Sl.Len, ref, l.nestedBase(st, j))
+}
+
+func (s *State) havocLoc(l frameLoc) { s.havocLocPre(l, s.clone()) }
+
+func (s *State) havocLocPre(l frameLoc, pre *State) {
 	c := s.c
 	switch l.kind {
-	case "type":
+	case "nested":
+		for _, cp := range comps(l.T) {
+			key := elemKey(l.T, nil, cp.Suffix)
+			srt := arrSort(sInt, arrSort(sInt, cp.Sort))
+			old := s.heapGet(key, srt)
+			nr := c.freshConst("hvn", srt)
+			s.heap[key] = nr
+			b := fmt.Sprintf("b!%d", c.fresh)
+			c.fresh++
+			s.assume(fmt.Sprintf("(forall ((%s Int)) (! (=> (not %s) (= (select %s %s) (select %s %s))) :pattern ((select %s %s))))", b, l.nestedMember(pre, b), nr, b, old, b, nr, b))
+		}
+	case "type", "elemtype":
 		s.havocPrefix(l.prefix)
 	case "fld":
 		if k := kindOf(l.T); k == kStruct || k == kArray {
@@ -683,7 +760,11 @@ func (c *FnCtx) frameGoal(s *State, kind string, keyPrefix string, ref string) s
 	alts := []string{app(">=", ref, c.entry.alloc)}
 	for _, l := range c.frame {
 		switch {
+		case l.kind == "nested" && kind == "elems" && keyPrefix == l.prefix:
+			alts = append(alts, l.nestedMember(c.entry, ref))
 		case l.kind == "type" && kind == "fld" && strings.HasPrefix(keyPrefix, l.prefix):
+			return "true"
+		case l.kind == "elemtype" && kind == "elems" && keyPrefix == l.prefix:
 			return "true"
 		case kind == "fld" && l.kind == "fld" && l.prefix == keyPrefix:
 			alts = append(alts, eq(ref, l.ref))
@@ -739,7 +820,22 @@ func (s *State) frameCheckLoc(site ssa.Instruction, l frameLoc) {
 	}
 	var goal string
 	switch l.kind {
-	case "glob", "type":
+	case "nested":
+		// every array of the callee's set must be writable here: fresh in this activation, or in an own nested set
+		j := fmt.Sprintf("j!m%d", c.fresh)
+		c.fresh++
+		b := l.nestedBase(s, j)
+		own := []string{app(">=", b, c.entry.alloc), eq(b, "0")}
+		for _, f := range c.frame {
+			if f.kind == "nested" && f.prefix == l.prefix {
+				own = append(own, f.nestedMember(c.entry, b))
+			}
+			if f.kind == "elemtype" && f.prefix == l.prefix {
+				own = append(own, "true")
+			}
+		}
+		goal = fmt.Sprintf("(forall ((%s Int)) (=> (and (<= 0 %s) (< %s %s)) %s))", j, j, j, l.outer.Sl.Len, or(own...))
+	case "glob", "type", "elemtype":
 		goal = "false"
 		for _, f := range c.frame {
 			if f.kind == l.kind && f.prefix == l.prefix {
@@ -961,10 +1057,16 @@ func (c *FnCtx) loopMods(h *ssa.BasicBlock) ([]string, bool) {
 
 // assignKeys: heap key prefixes a callee's assigns entry may touch (syntactic, type-based).
 func (c *FnCtx) assignKeys(e Expr, callee *ssa.Function) ([]string, bool) {
-	if call, ok := e.(*ECall); ok && call.Fn == "alloftype" && len(call.Args) == 1 {
+	if call, ok := e.(*ECall); ok && (call.Fn == "alloftype" || call.Fn == "allelems") && len(call.Args) == 1 {
 		if ts, ok := call.Args[0].(*EStr); ok {
-			x := &EvalCtx{s: c.entry, pkg: pkgOf(callee)}
+			x := &EvalCtx{s: c.entry}
+			if callee != nil {
+				x.pkg = pkgOf(callee)
+			}
 			if t, _ := x.specTypeAny(ts.V); t != nil {
+				if call.Fn == "allelems" {
+					return []string{"elem|" + typeKey(t)}, false
+				}
 				return []string{"fld|" + typeKey(t) + "|"}, false
 			}
 		}
@@ -1107,6 +1209,17 @@ func (s *State) havocPrefixFramed(prefix string) {
 				kind == "cell" && l.kind == "cell" && l.prefix == kp,
 				kind == "map" && l.kind == "map":
 				inFrame = append(inFrame, eq(r, l.ref))
+			}
+		}
+		for _, l := range c.frame {
+			if l.kind == "nested" && kind == "elems" && l.prefix == kp {
+				inFrame = append(inFrame, l.nestedMember(c.entry, r))
+			}
+			if l.kind == "elemtype" && kind == "elems" && l.prefix == kp {
+				inFrame = append(inFrame, "true")
+			}
+			if l.kind == "type" && kind == "fld" && strings.HasPrefix(kp, l.prefix) {
+				inFrame = append(inFrame, "true")
 			}
 		}
 		cond := and(app("<", r, c.entry.alloc), not(or(inFrame...)))
